@@ -37,8 +37,8 @@ strptime_ok_f = z3.Function('strptime_ok', S, S, B)   # (fmt, text)
 strptime_val_f = z3.Function('strptime_val', S, S, I)
 datestr_f = z3.Function('str_of_datetime', I, S)
 
-SeqS = z3.SeqSort(S)
-split_f = z3.Function('str_split', S, S, SeqS)        # (string, sep)
+split_len_f = z3.Function('str_split_len', S, S, I)    # (string, sep)
+split_at_f = z3.Function('str_split_at', S, S, I, S)   # (string, sep, index)
 
 ASCII_RE = z3.Star(z3.Range('\x00', '\x7f'))
 
